@@ -416,8 +416,14 @@ static void do_step(const Step &st) {
   } else if (op == "console") {
     console_line(st.a.size() ? st.a[0] : std::string());
   } else if (op == "fault") {   // fault <k> [kind]: inject an LPC error at the k-th instruction from now
-    S.fault_countdown = atol(st.a[0].c_str());
     S.fault_kind = st.a.size() > 1 ? st.a[1] : "error";
+    if (atol(st.a[0].c_str()) < 0) S.compile_room = -1;       // "fault -1 ...": every armed fault is disarmed
+    if (!S.fault_kind.compare(0, 12, "compileroom:")) {
+      // fault <k> compileroom:<r>: the k-th compilation from now starts with only r free slots on the value stack
+      S.compile_skip = atol(st.a[0].c_str()); S.compile_room = atol(S.fault_kind.c_str() + 12);
+      if (S.compile_skip < 0) S.compile_room = -1;
+    } else
+      S.fault_countdown = atol(st.a[0].c_str());
   } else if (op == "fsopt") {        // fsopt <short_read mode | -1> <eio at the k-th read from now | -1>
     files_set_read_faults(atol(st.a[0].c_str()), st.a.size() > 1 ? atol(st.a[1].c_str()) : -1);
   } else if (op == "fsarm") {        // fsarm <n>: the disk stops at the n-th mutating file call from now
